@@ -54,3 +54,114 @@ func lemmaHHmmTransitive(a, b, c HHmm) bool {
 func lemmaHHmmMirror(a, b HHmm) bool {
 	return a.Before(b) == b.After(a)
 }
+
+// ---- wire round trips per type (C05, C13): decode(encode(x)) --------------------------------
+
+func lemmaRoundTripDate(d Date) (Date, bool) {
+	b, err := d.MarshalUT0311L0x()
+	if err != nil || len(b) < 4 {
+		return Date{}, false
+	}
+
+	var x Date
+	r, err := x.UnmarshalUT0311L0x(b)
+	if err != nil {
+		return Date{}, false
+	}
+
+	if p, ok := r.(*Date); ok && p != nil {
+		return *p, true
+	}
+
+	return Date{}, false
+}
+
+func lemmaRoundTripDateTime(d DateTime) (DateTime, bool) {
+	b, err := d.MarshalUT0311L0x()
+	if err != nil || len(b) < 7 {
+		return DateTime{}, false
+	}
+
+	var x DateTime
+	r, err := x.UnmarshalUT0311L0x(b)
+	if err != nil {
+		return DateTime{}, false
+	}
+
+	if p, ok := r.(*DateTime); ok && p != nil {
+		return *p, true
+	}
+
+	return DateTime{}, false
+}
+
+func lemmaRoundTripHHmm(h HHmm) (HHmm, bool) {
+	b, err := h.MarshalUT0311L0x()
+	if err != nil || len(b) < 2 {
+		return HHmm{}, false
+	}
+
+	var x HHmm
+	r, err := x.UnmarshalUT0311L0x(b)
+	if err != nil {
+		return HHmm{}, false
+	}
+
+	if p, ok := r.(*HHmm); ok && p != nil {
+		return *p, true
+	}
+
+	return HHmm{}, false
+}
+
+func lemmaRoundTripPIN(p PIN) (PIN, bool) {
+	b, err := p.MarshalUT0311L0x()
+	if err != nil || len(b) < 3 {
+		return 0, false
+	}
+
+	var x PIN
+	if _, err := x.UnmarshalUT0311L0x(b); err != nil {
+		return 0, false
+	}
+
+	return x, true
+}
+
+func lemmaRoundTripSerialNumber(s SerialNumber) (SerialNumber, bool) {
+	b, err := s.MarshalUT0311L0x()
+	if err != nil || len(b) < 4 {
+		return 0, false
+	}
+
+	var x SerialNumber
+	r, err := x.UnmarshalUT0311L0x(b)
+	if err != nil {
+		return 0, false
+	}
+
+	if p, ok := r.(*SerialNumber); ok && p != nil {
+		return *p, true
+	}
+
+	return 0, false
+}
+
+func lemmaRoundTripVersion(v Version) (Version, bool) {
+	b, err := v.MarshalUT0311L0x()
+	if err != nil || len(b) < 2 {
+		return 0, false
+	}
+
+	var x Version
+	r, err := x.UnmarshalUT0311L0x(b)
+	if err != nil {
+		return 0, false
+	}
+
+	if p, ok := r.(*Version); ok && p != nil {
+		return *p, true
+	}
+
+	return 0, false
+}
